@@ -62,6 +62,9 @@ func (H) Gen(prop string, rng *rand.Rand, tier string) *core.Plan {
 	}
 	p.Ops = append(p.Ops, core.Op{K: "compact"}, core.Op{K: "compact"})
 	p.Cfg["maporder"] = rng.Intn(2) // tape-chosen iteration order of Go maps in the code under test
+	// slots per family: 40 keeps blocks small; 400 / 720 are families of a store whose interval gives more than
+	// 360 slots per family (5 s per hour, 1 h per month): the merger's scratch buffers have another path there
+	p.Cfg["max_slot"] = []int{40, 40, 40, 400, 720}[rng.Intn(5)]
 	return p
 }
 
@@ -484,7 +487,7 @@ func runC03(c *core.RunCtx) {
 		sim.Event("op %d %s", i, op.String())
 		switch op.K {
 		case "flush":
-			fc := genFile(op, nMetrics, 40)
+			fc := genFile(op, nMetrics, c.Plan.C("max_slot", 40))
 			if err := writeFile(fam, fc); err != nil {
 				c.Anomaly("write file: %v", err)
 				return
